@@ -2,8 +2,8 @@
 from .registry import reg, cargotest, add_stage
 
 reg("C40",
-    [cargotest("hydro", "hv_sim_b", "tests::c40_raft", timeout=6000),
-     cargotest("hydro", "hv_sim_b", "tests::c40_paxos", timeout=6000)],
+    [cargotest("hydro", "hv_sim_b", "tests::c40_raft", timeout=7200),
+     cargotest("hydro", "hv_sim_b", "tests::c40_paxos", timeout=7200)],
     technique="runtime monitor: the shipped Raft runs in the Hydro simulator and the shipped Paxos in its production "
               "(embedded) codegen under a seeded adversarial scheduler; harness-owned timers, requests and fail-stop "
               "network; the harness's own pairwise log-agreement oracle over the members' committed outputs, "
@@ -11,18 +11,21 @@ reg("C40",
     text="Raft (raft_server, 3 members; 5 in thorough): 6 000 (quick) / 460 000 (thorough) simulator schedules in three "
          "script families (racy rounds with 1-2 concurrent challengers overlapping replication, everything outstanding "
          "at once, random staggered actions), every scheduler decision drawn from VERIF_SEED (exactly replayable), plus "
-         "the complete enumeration (simulator `exhaustive`) of a 1-election/1-request/2-heartbeat scenario. Paxos "
-         "(paxos_core, 2-3 proposers, 3 acceptors): 1 500 / 30 000 schedules of 500 scheduler decisions (ticks, "
-         "per-channel FIFO deliveries, paused-clock advances racing the 1 s/2 s timers, client payloads, leader stalls). "
-         "Oracle: for all members a,b and log positions i the committed entries agree whenever both are defined, and no "
-         "member ever emits a different entry for a position it already committed.",
+         "the complete enumeration (simulator `exhaustive`) of small scenarios: election; request racing a heartbeat "
+         "round; one more heartbeat round (51 480 schedules; thorough adds election+request+heartbeat all at once, "
+         "40 976). Paxos (paxos_core, 2-3 proposers, 3 acceptors): 1 500 / 30 000 schedules of 500 scheduler decisions "
+         "(ticks, per-channel FIFO deliveries, paused-clock advances racing the 1 s/2 s timers, client payloads, leader "
+         "stalls). Oracle: for all members a,b and log positions i the committed entries agree whenever both are "
+         "defined, and no member ever emits a different entry for a position it already committed; the "
+         "implementation's own 'protocol violation' guards firing is reported as well.",
     note="Paxos cannot be compiled by the Hydro simulator at this revision (top-level `.max()` on an unbounded stream is "
          "unsupported there and its timers are wall-clock tokio intervals), so it is explored by a harness scheduler over "
          "the production codegen instead (anonymous channels are given positional names through the public IR rewrite "
-         "hook, nothing else is changed). Raft's exhaustive part covers only the small scenario; everything else is "
-         "sampled. The simulator's byte driver reads 4096 decision bytes per schedule, later decisions are 0 (same cap "
+         "hook, nothing else is changed). Raft's exhaustive part covers only the small scenarios; everything else is "
+         "sampled. Simulator executions run in child processes because a panic inside the simulator's dylib aborts the "
+         "process. The simulator's byte driver reads 4096 decision bytes per schedule, later decisions are 0 (same cap "
          "as the simulator's own fuzz). Lossy channels and crash-recovery are out of scope (fail-stop model).")
 
-add_stage("C31", cargotest("hydro", "hv_sim_b", "tests::c31_slices_sim", timeout=5400))
-add_stage("C34", cargotest("hydro", "hv_sim_b", "tests::c34_atomic_sim", timeout=5400))
-add_stage("C39", cargotest("hydro", "hv_sim_b", "tests::c39_quorum_sim", timeout=5400))
+add_stage("C31", cargotest("hydro", "hv_sim_b", "tests::c31_slices_sim", timeout=7200))
+add_stage("C34", cargotest("hydro", "hv_sim_b", "tests::c34_atomic_sim", timeout=7200))
+add_stage("C39", cargotest("hydro", "hv_sim_b", "tests::c39_quorum_sim", timeout=7200))
